@@ -11,7 +11,7 @@ import random
 
 from vmon import env  # noqa: F401
 from vmon.suitemon import suite_case
-from vmon.simkit import Mon
+from vmon.simkit import Mon, omit
 from vmon.models.memmap import translate_tree
 
 from amaranth.lib import wiring
@@ -62,7 +62,7 @@ def run_case(case):
         al = max(al, min_align)
         if al >= aw:
             al = min_align
-        m = MemoryMap(addr_width=aw, data_width=dw, alignment=al)
+        m = MemoryMap(**omit(rng, "MemoryMap", addr_width=aw, data_width=dw, alignment=al))
         all_maps.append(m)
         st["depth"] = max(st["depth"], lvl)
         desc = {"aw": aw, "dw": dw, "al": al, "items": []}
